@@ -2,15 +2,16 @@
 (* Direction B for C03 (relocation faithfulness).  A record is one run of goom's pure relocation
    (fixRelativeAddr + the tail-jump emitter) on one real function:
        name, d = origin - trampoline, fn = bytes of the function (first `have` bytes), size,
-       n = number of original bytes the trampoline replaces, out = relocated prefix,
-       tail = appended jump back, err = "" or the refusal.
+       out = the first 96 bytes of the placeholder READ BACK after goom's real fixOriginFuncToTrampoline ran
+       (relocated prefix ++ jump back ++ untouched 0x90 filler), err = "" or the refusal.
    The function and the output are parsed with the format model X86Format (the only decoder in the
    trusted base) and the requirement of DESIGN Appendix B is evaluated predicate by predicate:
      PrefixFaithful      bytes outside PC-relative fields identical and in order (rel8 branches may be
                          widened to their rel32 form with the same condition); every PC-relative operand,
                          at its NEW address, resolves to the same absolute target
-     CopiedBoundary      n is the first instruction boundary >= 13 that is not followed by RET
-     TailJump            the appended jump lands on origin + n
+     TailJump            right after the relocated prefix a jump lands on origin + n, n = the first instruction
+                         boundary >= 13 that is not followed by RET (so a wrong copied boundary shows here)
+     RefuseClean         a refusal leaves the placeholder untouched
      NoBranchIntoPrefix  no PC-relative branch of the function targets (0, n)
    plus the structural marker BackBranch (a branch to offset 0 = the patched entry; finding F5). *)
 EXTENDS X86Format, TLC, Json, FiniteSets
@@ -46,15 +47,15 @@ Widen(op) == IF op = 235 THEN <<233>> ELSE IF op \in 112..127 THEN <<15, op + 16
 \* walk the copied prefix against the output; "ok" or the violated predicate
 RECURSIVE Walk(_, _, _, _, _, _, _)
 Walk(fn, out, ins, k, n, q, d) ==
-   IF k > Len(ins) \/ ins[k].p >= n THEN (IF q = Len(out) THEN "ok" ELSE "V:output-length")
+   IF k > Len(ins) \/ ins[k].p >= n THEN <<"end", q>>
    ELSE LET i == ins[k] IN
      IF i.rel = 0 THEN
         IF q + i.len <= Len(out) /\ SubSeq(out, q + 1, q + i.len) = SubSeq(fn, i.p + 1, i.p + i.len)
-        THEN Walk(fn, out, ins, k + 1, n, q + i.len, d) ELSE "V:copied-bytes-differ"
+        THEN Walk(fn, out, ins, k + 1, n, q + i.len, d) ELSE <<"V:copied-bytes-differ", q>>
      ELSE LET w == SubSeq(out, q + 1, Min(q + 15, Len(out))) IN
-          IF Len(w) = 0 THEN "V:output-truncated" ELSE
+          IF Len(w) = 0 THEN <<"V:output-truncated", q>> ELSE
           LET o == Decode(w, Len(w)) IN
-          IF ~o.ok \/ o.rel = 0 THEN "V:output-not-decodable" ELSE
+          IF ~o.ok \/ o.rel = 0 THEN <<"V:output-not-decodable", q>> ELSE
           LET s == RelVal(w, o.off + 1, o.rel) IN
           LET inside == i.tgt >= 0 /\ i.tgt < n IN
           LET want == IF inside THEN i.tgt - i.p - i.len
@@ -62,39 +63,40 @@ Walk(fn, out, ins, k, n, q, d) ==
           LET pre_ok == \/ SubSeq(w, 1, o.off) = SubSeq(fn, i.p + 1, i.p + i.off)
                         \/ (i.rel = 1 /\ o.rel = 4 /\ SubSeq(w, 1, o.off) = SubSeq(fn, i.p + 1, i.p + i.off - 1) \o Widen(fn[i.p + i.off])) IN
           LET post_ok == SubSeq(w, o.off + o.rel + 1, o.len) = SubSeq(fn, i.p + i.off + i.rel + 1, i.p + i.len) IN
-          IF ~pre_ok THEN "V:opcode-bytes-differ"
-          ELSE IF ~post_ok THEN "V:bytes-after-pcrel-field-lost"
-          ELSE IF s # want THEN (IF q # i.p THEN "V:displacement-ignores-growth" ELSE "V:displacement")
+          IF ~pre_ok THEN <<"V:opcode-bytes-differ", q>>
+          ELSE IF ~post_ok THEN <<"V:bytes-after-pcrel-field-lost", q>>
+          ELSE IF s # want THEN (IF q # i.p THEN <<"V:displacement-ignores-growth", q>> ELSE <<"V:displacement", q>>)
           ELSE Walk(fn, out, ins, k + 1, n, q + o.len, d)
 
-\* tail jump: E9 rel32 placed at trampoline + Len(out) must land on origin + n.  It may be absent only if
-\* nothing remains (n >= size) or the last copied instruction never falls through (RET / unconditional JMP).
-TailOk(e, lastTerminal) ==
-    IF Len(e.tail) = 0 THEN (e.n >= e.size \/ lastTerminal)
-    ELSE /\ Len(e.tail) = 5 /\ e.tail[1] = 233
-         /\ Len(e.out) + 5 + RelVal(e.tail, 2, 4) = e.d + e.n
+\* tail jump: right after the relocated prefix (position q in the bytes read back from the placeholder) there must be
+\* E9 rel32 landing on origin + n - unless nothing remains (n >= size) or the last copied instruction never falls through
+\* (RET / unconditional JMP), in which case whatever follows is never executed.
+TailOk(e, q, n, lastTerminal) ==
+    IF n >= e.size \/ lastTerminal THEN TRUE
+    ELSE /\ q + 5 <= Len(e.out) /\ e.out[q + 1] = 233
+         /\ q + 5 + RelVal(e.out, q + 2, 4) = e.d + n
 
 Check(e) ==
    LET have == Len(e.fn) IN
    LET pr == Parse(e.fn, 0, have, <<>>, have < e.size) IN
    IF ~pr.ok \/ Len(pr.ins) = 0 THEN "outside-model"
-   ELSE LET ins == pr.ins IN LET n == Copied(ins) IN
-        LET lim == IF n < 0 THEN e.size ELSE n IN
+   ELSE LET ins == pr.ins IN LET n0 == Copied(ins) IN
+        LET lim == IF n0 < 0 THEN e.size ELSE n0 IN
         LET into == \E j \in 1..Len(ins) : ins[j].rel # 0 /\ ins[j].tgt > 0 /\ ins[j].tgt < lim IN
-        IF e.err # "" THEN (IF into THEN "refused:branch-into-prefix" ELSE "refused:other")
-        ELSE IF n < 0 /\ have < e.size THEN "outside-model"
+        IF e.err # "" THEN (IF SubSeq(e.out, 1, 8) # <<144, 144, 144, 144, 144, 144, 144, 144>> THEN "V:refusal-left-placeholder-modified"
+                            ELSE IF into THEN "refused:branch-into-prefix" ELSE "refused:other")
+        ELSE IF n0 < 0 /\ have < e.size THEN "outside-model"
         ELSE IF into THEN "V:branch-into-prefix-accepted"
-        ELSE IF n >= 0 /\ e.n # n THEN "V:copied-boundary"
         ELSE LET r == Walk(e.fn, e.out, ins, 1, lim, 0, e.d) IN
-             IF r # "ok" THEN r
+             IF r[1] # "end" THEN r[1]
              ELSE LET K == {k \in 1..Len(ins) : ins[k].p < lim} IN
                   LET lastI == ins[CHOOSE k \in K : \A j \in K : j <= k] IN
-                  IF ~TailOk(e, lastI.ret \/ lastI.cls = "jmp") THEN "V:tail-jump"
-             ELSE IF \E j \in 1..Len(ins) : IsBranch(ins[j]) /\ ins[j].tgt = 0 THEN "ok+branch-to-entry" ELSE "ok"
+                  IF ~TailOk(e, r[2], lim, lastI.ret \/ lastI.cls = "jmp") THEN "V:tail-jump"
+                  ELSE IF \E j \in 1..Len(ins) : IsBranch(ins[j]) /\ ins[j].tgt = 0 THEN "ok+branch-to-entry" ELSE "ok"
 
-Viol == {"V:output-length", "V:copied-bytes-differ", "V:output-truncated", "V:output-not-decodable", "V:opcode-bytes-differ",
+Viol == {"V:refusal-left-placeholder-modified", "V:copied-bytes-differ", "V:output-truncated", "V:output-not-decodable", "V:opcode-bytes-differ",
          "V:bytes-after-pcrel-field-lost", "V:displacement-ignores-growth", "V:displacement", "V:branch-into-prefix-accepted",
-         "V:copied-boundary", "V:tail-jump"}
+         "V:tail-jump"}
 Init == l = 1 /\ tally = <<>> /\ bad = <<>>
 Bump(t, c) == IF \E i \in 1..Len(t) : t[i][1] = c
               THEN [i \in 1..Len(t) |-> IF t[i][1] = c THEN <<c, t[i][2] + 1>> ELSE t[i]]
